@@ -1,15 +1,13 @@
-\* C02 / C03: all well-formed histories of one connection, <= MaxLen messages,
-\* ids {2,3,4} + one server-range id, <= 3 incarnations per id
 CONSTANTS
   Dict <- MCDict
   Proto <- MiniProto
-  Tags = {""}
-  CIds = {2, 3}
-  SIds <- SrvIds1
-  MaxLen = 6
-  MaxGen = 3
+  Tags = {"1"}
+  CIds = {2}
+  SIds <- NoIds
+  MaxLen = 5
+  MaxGen = 2
   Gaps = {1}
-  Cmds <- NoCmds
+  Cmds <- CmdsJoin
   Junk <- NoJunk
   Filter0 <- NoFilter
   Show = TRUE
